@@ -1,5 +1,6 @@
 import SJ.Proofs.MachineApTop
 import SJ.Proofs.MachineApCst
+import SJ.Proofs.MachineApSim
 import SJ.Props.C01Iff
 /-!
 # C01 / C02 under `arbitrary_precision`: the private Number token, as theorems about the faithful model
@@ -305,6 +306,67 @@ theorem c01_ap_accepts_iff_partial (env : Env) (hap : env.cfg.ap = true) (hv : e
       exact ⟨txt, w, ht, hw⟩
     · rintro ⟨txt, w, ht, hw⟩
       exact ⟨_, (c01_ap_token_language env hap hv w₀ w₁ k rest hw₀ hw₁ hk hkt _).mpr ⟨txt, w, ht, hw, rfl⟩⟩
+
+/-- **C01 under `arbitrary_precision`, soundness half, every input**: whatever the faithful model accepts is an RFC 8259
+    JSON text meeting the side conditions — the token reading never makes the crate accept something that is not JSON.
+    (`MachineAp` and the machine are run side by side: outside a token object their states differ only in collected values,
+    which the control flow never inspects — `step1_eqv`; inside one the machine is reading the member of an ordinary
+    object — `sim_step`.) -/
+theorem c01_ap_sound (env : Env) (henv : env.tgt = .value) (bs : Bytes) (v : JV) (h : parseAp env bs = .ok v) :
+    ∃ t, JsonText bs t ∧ (env.cfg.limitOff = true ∨ depth t ≤ 127) ∧ surrogatesPaired t = true ∧
+      (env.src ≠ .str → Spec.Canon.stringsUtf8 t = true) ∧
+      Spec.Canon.numbersInRange (specCfg env.cfg) t = true := by
+  obtain ⟨v', hv'⟩ := SJ.Proofs.MachineAp.ap_sound env bs v h
+  exact (SJ.Props.C01Iff.c01_accepts_iff env henv bs).mp ⟨v', hv'⟩
+
+/-- the shape condition of `c01_ap_accepts_iff`, on the run of the byte-step machine: wherever the machine, fed a prefix
+    of `bs`, has just read the FIRST key of an object, that key equals the token, and the next byte is the `:`, the input
+    from that `:` on is `: ws "number literal" ws }` followed by anything (`Spec.PrivateToken.TokenTail`) -/
+abbrev TokenTailsOK (env : Env) (bs : Bytes) : Prop := SJ.Proofs.MachineAp.TailsOK env init bs
+
+/-- **C01 (c), the accepted language under `arbitrary_precision`**: the faithful model accepts `bs` iff `bs` is an RFC 8259
+    JSON text meeting the side conditions of `c01_accepts_iff` (numbers are never out of range under the feature) in which
+    every object whose first key decodes to the token has the shape `{ "<token>" : "<number literal>" }`.
+    The shape clause is stated on the run of the byte-step machine (`TokenTailsOK`: the positions where it has read such a
+    key) rather than on the syntax tree (`Spec.PrivateToken.TokenShaped t`); the equivalence of the two formulations for
+    JSON texts is NOT proved (it needs the link between run positions and derivations that only C02's soundness invariant
+    has). `c01_ap_accepts_iff_partial` gives purely syntactic formulations for two families of inputs. -/
+theorem c01_ap_accepts_iff (env : Env) (hap : env.cfg.ap = true) (hv : env.tgt = .value) (bs : Bytes) :
+    (∃ v, parseAp env bs = .ok v) ↔
+    (∃ t, JsonText bs t ∧ (env.cfg.limitOff = true ∨ depth t ≤ 127) ∧ surrogatesPaired t = true ∧
+      (env.src ≠ .str → Spec.Canon.stringsUtf8 t = true)) ∧ TokenTailsOK env bs := by
+  rw [SJ.Proofs.MachineAp.ap_iff env hap hv bs, SJ.Props.C01Iff.c01_accepts_iff env hv bs]
+  constructor
+  · rintro ⟨⟨t, h1, h2, h3, h4, _⟩, ht⟩; exact ⟨⟨t, h1, h2, h3, h4⟩, ht⟩
+  · rintro ⟨⟨t, h1, h2, h3, h4⟩, ht⟩
+    exact ⟨⟨t, h1, h2, h3, h4, SJ.Proofs.Complete.numbersInRange_ap (specCfg env.cfg) hap t⟩, ht⟩
+
+/-- non-vacuity: `[{"$serde_json::private::Number":"1"},{"a":{"$serde_json::private::Number":"2e3"}}]` is accepted, so it
+    is a JSON text and both token objects are well-shaped tails; with `"x"` in place of `"1"` the machine still accepts
+    (it is JSON) but the shape clause fails -/
+example : let env : Env := ⟨{ ap := true }, .slice, .value⟩
+    let doc (s : Bytes) : Bytes := [0x5b, 0x7b, 0x22] ++ Gen.numberToken ++ [0x22, 0x3a, 0x22] ++ s ++ [0x22, 0x7d, 0x2c, 0x7b, 0x22,
+      0x61, 0x22, 0x3a, 0x7b, 0x22] ++ Gen.numberToken ++ [0x22, 0x3a, 0x22, 0x32, 0x65, 0x33, 0x22, 0x7d, 0x7d, 0x5d]
+    TokenTailsOK env (doc [0x31]) ∧ ¬ TokenTailsOK env (doc [0x78]) := by
+  intro env doc
+  have hacc : (parseAp env (doc [0x31])).isOk
+      (.arr [.num (.lit [0x31]), .obj [([0x61], .num (.lit [0x32, 0x65, 0x33]))]]) = true := by decide +kernel
+  have hrej : (parseAp env (doc [0x78])).isCustom .InvalidNumber 1 1 = true := by decide +kernel
+  have hmb : (match parseTop env (doc [0x78]) with | .ok _ => true | .err _ _ => false) = true := by decide +kernel
+  have hm : ∃ v', parseTop env (doc [0x78]) = .ok v' := by
+    cases h : parseTop env (doc [0x78]) with
+    | ok v' => exact ⟨v', rfl⟩
+    | err c i => rw [h] at hmb; cases hmb
+  constructor
+  · cases h : parseAp env (doc [0x31]) with
+    | ok v => exact SJ.Proofs.MachineAp.tails_of_ap env _ v h
+    | err c i => rw [h] at hacc; cases hacc
+    | data i => rw [h] at hacc; cases hacc
+    | custom c l k => rw [h] at hacc; cases hacc
+  · intro ht
+    obtain ⟨v, hv⟩ := (SJ.Proofs.MachineAp.ap_iff env rfl rfl _).mpr ⟨hm, ht⟩
+    rw [show Model.MachineAp.parseTop env (doc [0x78]) = parseAp env (doc [0x78]) from rfl] at hv
+    rw [hv] at hrej; cases hrej
 
 /-- non-vacuity of (2): `{"$serde_json::private::Number":"1"}` has the shape -/
 example : TokenTail [0x3a, 0x22, 0x31, 0x22, 0x7d] [0x31] [] :=
